@@ -78,6 +78,8 @@ def run(ctx: core.Ctx) -> int:
             else:
                 val = rets[0]["value"]
                 n_pairs += 1
+                if py.get("pred_cov") is None:
+                    continue
                 ctx.oblige("PRED-EQ", where, f"C++ covariance = {val.get('covariance')!r}", val.get("covariance") == py.get("pred_cov"), file=tplp,
                            func="process_model", construct="covariance form",
                            msg=f"generated C++ predicts covariance  {val.get('covariance')!r} ; Python predicts  {py.get('pred_cov')!r}")
@@ -103,6 +105,8 @@ def run(ctx: core.Ctx) -> int:
                     continue
                 val = late[0]["value"]
                 n_pairs += 1
+                if py.get("upd_state") is None or py.get("upd_cov") is None or py.get("innovation") is None:
+                    continue
                 ctx.oblige("UPD-EQ", wheres, f"C++ posterior state = {val.get('state')!r}", val.get("state") == py.get("upd_state"), file=tpls,
                            func="sensor_model", construct="posterior state form",
                            msg=f"generated C++ posterior state  {val.get('state')!r} ; Python  {py.get('upd_state')!r}")
